@@ -11,6 +11,7 @@ CONSTANTS
   ChainNs = {1, 3}
   Algo = "arange_int"
   ExtFilter = TRUE
+  CoordDtype = "axis"
   FillBy = "reindex"
   LenBy = "sizes"
   RangeFrom = "index"
